@@ -212,6 +212,36 @@ fn check_list(c: &ListCase, info: &mut Info) -> Result<(), String> {
             return Err("pairing_product differs from e(g1,g2)^(a1 b1 + a2 b2)".into());
         }
     }
+    // prepared elements that reached their slot by clone / clone_from (a table of prepared keys refreshed in place:
+    // the slots first hold the prepared identity, the prepared generator or the neighbour's element)
+    if n > 0 && n <= 80 {
+        let id1 = cr("prepare", || aff_c::<G1m>(&Pt::Inf).prepare())?;
+        let id2 = cr("prepare", || aff_c::<G2m>(&Pt::Inf).prepare())?;
+        let gen2 = cr("prepare", || aff_c::<G2m>(&G2m::gen()).prepare())?;
+        let mut s1: Vec<crt::G1Prepared> = (0..n).map(|_| id1.clone()).collect();
+        let mut s2: Vec<crt::G2Prepared> = (0..n).map(|i| match i % 3 { 0 => id2.clone(), 1 => gen2.clone(), _ => qp[(i + 1) % n].clone() }).collect();
+        cr("clone_from", || {
+            for i in 0..n {
+                s1[i].clone_from(&pp[i]);
+                s2[i].clone_from(&qp[i]);
+            }
+        })?;
+        let refs: Vec<(&crt::G1Prepared, &crt::G2Prepared)> = (0..n).map(|i| (&s1[i], &s2[i])).collect();
+        let f = cr("miller_loop", || Bls12::miller_loop(refs.iter()))?;
+        let e = cr("final_exponentiation", || Bls12::final_exponentiation(&f))?.ok_or("final_exponentiation of a Miller-loop output failed")?;
+        if fq12_m(&e) != want {
+            return Err(format!("Miller loop over {} prepared pairs that were copied into occupied slots with clone_from (slots held the prepared identity / generator / a neighbour) differs from e(g1,g2)^(sum a_i b_i)", n));
+        }
+        let mut s3: Vec<crt::G2Prepared> = vec![id2.clone(); (n + 1) / 2];
+        cr("Vec::clone_from", || s3.clone_from(&qp))?;
+        let refs: Vec<(&crt::G1Prepared, &crt::G2Prepared)> = (0..n).map(|i| (&pp[i], &s3[i])).collect();
+        let f = cr("miller_loop", || Bls12::miller_loop(refs.iter()))?;
+        let e = cr("final_exponentiation", || Bls12::final_exponentiation(&f))?.ok_or("final_exponentiation of a Miller-loop output failed")?;
+        if fq12_m(&e) != want {
+            return Err(format!("Miller loop over {} prepared pairs whose G2 side was copied with Vec::clone_from into a shorter vector of prepared identities differs from e(g1,g2)^(sum a_i b_i)", n));
+        }
+        info.class("prepared-copied-with-clone_from");
+    }
     // reuse of the same prepared elements in other orders / sub-lists
     for (rot, rev) in &c.replays {
         if n == 0 {
@@ -249,7 +279,7 @@ pub fn def() -> PropDef {
         needs_pairing: true,
         subs: vec![
             Box::new(crate::engine::EnumSub { name: "long-history", rule: super::longhist::RULE, run: run_long_history, replay: super::longhist::replay, exhaustive: false }),
-            Box::new(crate::engine::EnumSub { name: "two-input-bursts", rule: super::longhist::BURST_RULE, run: run_two_input_bursts, replay: super::longhist::replay_burst, exhaustive: false }),Box::new(Sub { name: "pair-lists", rule: "final_exponentiation(miller_loop(list)) == published^(sum a_i b_i) == product of singles == helpers; prepared reuse", quick: 2_800, thorough: 25_000, strategy: || boxed(list_strategy()), check: check_list })],
+            Box::new(crate::engine::EnumSub { name: "two-input-bursts", rule: super::longhist::BURST_RULE, run: run_two_input_bursts, replay: super::longhist::replay_burst, exhaustive: false }),Box::new(Sub { name: "pair-lists", rule: "final_exponentiation(miller_loop(list)) == published^(sum a_i b_i) == product of singles == helpers; prepared reuse, prepared elements copied into occupied slots with clone_from", quick: 2_800, thorough: 25_000, strategy: || boxed(list_strategy()), check: check_list })],
         assumptions: {
             let mut v = COMMON_ASSUMPTIONS.to_vec();
             v.push("pairing_multi_product is only called with slices of equal length, as the property states");
